@@ -255,6 +255,26 @@ def run(ctx):
             ('nothing to minimise', [good, out, e2e.TOKPRED, 'all', 'set-logic', 'ALL', 'declare-const', 'x', 'Int', 'assert', '>', '0', '<', '5', 'check-sat'],
              [1, 0, 1, 1, 1, 1, 0, 0]),
         ]
+        # further usage errors and hostile commands (the model's invocation vector treats them as: command cannot be run -> 1,
+        # or a normal run -> 0)
+        nonutf = os.path.join(d, 'nonutf.sh')
+        open(nonutf, 'w').write('#!/bin/sh\nprintf "\\377\\376 bug\\n"\nprintf "\\200\\n" >&2\ngrep -q x "$1" && exit 1\nexit 0\n')
+        os.chmod(nonutf, 0o755)
+        garbage = os.path.join(d, 'garbage')
+        open(garbage, 'wb').write(b'\x7fELFgarbage')
+        os.chmod(garbage, 0o755)
+        noshebang = os.path.join(d, 'noshebang')
+        open(noshebang, 'w').write('echo hi\n')
+        os.chmod(noshebang, 0o755)
+        cases += [
+            ('command output is not UTF-8', [good, out, nonutf], [1, 0, 1, 1, 1, 1, 0, 0]),
+            ('command has no valid executable format', [good, out, garbage], [1, 0, 1, 1, 0, 1, 0, 0]),
+            ('cross-check command missing', ['-c', os.path.join(d, 'nonexist.sh'), good, out] + cmd, [1, 0, 1, 0, 1, 1, 0, 0]),
+            ('cross-check command not executable', ['-c', noexec, good, out] + cmd, [1, 0, 1, 1, 0, 1, 0, 0]),
+            ('zero jobs', ['-j', '0', '--strategy', 'hierarchical', good, out] + cmd, [1, 0, 0, 1, 1, 1, 0, 0]),
+            ('negative jobs', ['-j', '-3', good, out] + cmd, [1, 0, 0, 1, 1, 1, 0, 0]),
+            ('output file is the input file', [good, good] + cmd, [1, 0, 0, 1, 1, 1, 0, 0]),
+        ]
         mcalls = [(45, inv) for _, _, inv in cases]
         mres = model.batch(mcalls)
         for (name, args, inv), (status, lines) in zip(cases, mres):
